@@ -236,6 +236,19 @@ def gen_send(rng, idx):
         if s.held: s.add(op="unhold"); s.held = False
         base = s.next_id; s.next_id += 8
         s.steps += quota_probe(base, rm if rm is not None else 2)
+    if r.random() < 0.07:
+        # a lost acknowledgement whose recovery (the 20 s watchdog's own DISCONNECT) is overtaken by a connection loss; a
+        # second acknowledgement lost later must still be recovered: the watchdog has to survive its first use
+        s.quiesce(ms=60000)
+        if s.held: s.add(op="unhold"); s.held = False
+        s.add(op="hold"); s.pub(r.choice([1, 2])); s.add(op="advance", ms=1); s.add(op="lose", i=0); s.add(op="unhold")
+        s.add(op="advance", ms=15000)
+        s.add(op="set", auto_write=0)
+        s.add(op="advance", ms=9000)                               # the watchdog has fired: its DISCONNECT is being written
+        s.add(op="wend", ec=r.choice(["reset", "broken_pipe"]))
+        s.add(op="set", auto_write=1)
+        s.quiesce(ms=60000)
+        s.add(op="hold"); s.pub(r.choice([1, 2])); s.add(op="advance", ms=1); s.add(op="lose", i=0); s.add(op="unhold")
     s.quiesce()
     t = r.random()
     if t < 0.3: s.add(op="cancel_all"); s.add(op="drain")
@@ -279,6 +292,20 @@ def gen_recv(rng, idx):
             fault_step(s)
         elif k < 0.76:
             s.add(op="connack", sp=r.choice([0, 1, 1, -1]))
+        elif k < 0.79:
+            # the connection is lost while the client's PUBREC / PUBCOMP (or PUBACK) is being written, the session is lost
+            # (or kept), and the broker's next message reuses the packet identifier
+            s.add(op="set", auto_write=0)
+            nb += 1; q = r.choice([2, 2, 1])
+            s.add(op="bpub", qos=q, msg="x%d" % nb)
+            if q == 2 and r.random() < 0.7: s.add(op="wend", ec="ok")          # PUBREC went through; the PUBCOMP write is pending
+            s.add(op="fault", ec=r.choice(["reset", "broken_pipe"]))
+            s.add(op="connack", sp=r.choice([0, 0, 1]))
+            s.add(op="advance", ms=r.choice([1, 2000, 4000]))
+            s.add(op="set", auto_write=1)
+            s.add(op="advance", ms=3000)
+            nb += 1; s.add(op="bpub", qos=2, msg="x%d" % nb)
+            if r.random() < 0.5: nb += 1; s.add(op="bpub", qos=r.choice([1, 2]), msg="x%d" % nb)
         elif k < 0.82:
             s.add(op="set", auto_write=0)
             nb += 1
